@@ -39,7 +39,7 @@ def worker_init():
 
 ROUTES = ["arrays", "frame_default", "frame_shift", "frame_perm_labels", "frame_string_labels", "frame_float_labels",
           "int_literals", "material_dict", "from_isotherm", "clone", "below_threshold", "negative_zero", "after_reads",
-          "branch_as_bool", "branch_as_float", "meta_order"]
+          "branch_as_bool", "branch_as_float", "meta_order", "temperature_literal"]
 
 
 def strat_same():
@@ -180,6 +180,15 @@ def check_same(desc, ctx):
         d2["material"] = dict(reversed(list(d["material"].items())))
         a = _build(d1, p, l)
         b = _build(d2, p, l)
+    elif route == "temperature_literal":
+        # an integral temperature given as python int / numpy integer / numpy float / text vs the float literal
+        t_int = int(round(d["T"]))
+        if t_int == 0 and d["units"]["temperature_unit"] == "K":
+            t_int = 1
+        form = [int, np.int64, np.float64, str, np.int32][desc["k"] % 5]
+        a = _build(dict(d, T=float(t_int)), p, l)
+        b = _build(dict(d, T=form(t_int)), p, l)
+        ctx.label("temperature_literal", form.__name__)
     else:
         raise HarnessError(route)
     _same(a, b, route)
@@ -368,7 +377,7 @@ def strat_model():
         S.units(), S.ads_T(), S.material(), st.sampled_from(["Langmuir", "Henry", "Toth", "DSLangmuir", "BET"]),
         st.floats(0.01, 100).map(lambda x: round(x, 6)), st.floats(0.1, 50).map(lambda x: round(x, 6)),
         st.sampled_from(["same_rebuild", "same_dict", "param", "param_last_digits", "param_small_magnitude", "param_in_place", "model_name", "range",
-                         "rmse", "meta", "unit"]),
+                         "rmse", "meta", "unit", "param_int_literals", "param_int_literals"]),
         st.dictionaries(st.sampled_from(["user", "k1", "comment"]), st.one_of(st.integers(0, 5), st.text("abc", max_size=3)), max_size=2))
 
 
@@ -423,6 +432,18 @@ def check_model(desc, ctx):
         a = _miso(desc, _model(desc, kscale=1.2e-9))
         b = _miso(desc, _model(desc, kscale=3.4e-9))
         same = False
+    elif f == "param_int_literals":
+        # integral parameters, ranges and rmse written as integer literals (or numpy floats) vs float literals
+        def lit(conv):
+            m = _model(desc)
+            m.params = {k: conv(max(1, round(v))) for k, v in m.params.items()}
+            m.pressure_range = [conv(0), conv(10)]
+            m.loading_range = [conv(0), conv(5)]
+            m.rmse = conv(0)
+            return m
+        a = _miso(desc, lit(float))
+        b = _miso(desc, lit(int if round(desc["n_m"] * 1e6) % 2 else np.float64))
+        same = True
     elif f == "model_name":
         other = "Henry" if desc["model"] != "Henry" else "Langmuir"
         b = _miso(desc, _model(desc, name=other))
